@@ -488,8 +488,16 @@ func matchKnown(c Case, err error) string {
 		return "C09-else-unscope-redeclaration"
 	}
 	// ++b**2 is valid JavaScript (V8 accepts it) but the parser of the minifier does not
-	if (c.Kind == "js" || c.Kind == "html") && strings.Contains(msg, "rejects its own output: unexpected ** in expression") && rePrefixUpdateExp.MatchString(msg) {
-		return "C09-prefix-update-exp-reparse"
+	if (c.Kind == "js" || c.Kind == "html") && strings.Contains(msg, "rejects its own output: unexpected ** in expression") {
+		// the message only shows the start of the output: look at all of it
+		whole := msg
+		mt := seeds.Mediatype[c.Kind]
+		if o, e := mk.RunM(mk.Full(c.Opts.Build()), mt, c.src()); e == nil {
+			whole = string(o)
+		}
+		if rePrefixUpdateExp.MatchString(whole) {
+			return "C09-prefix-update-exp-reparse"
+		}
 	}
 	// ]]&gt; decoded to ]]> in character data
 	if (c.Kind == "xml" || c.Kind == "svg") && strings.Contains(msg, "unescaped ]]> not in CDATA section") {
